@@ -175,6 +175,9 @@ def metric_value(rng_seed, tid, r, style):
         return rr.randrange(0, 4) / 4.0
     if style == "const":
         return 0.5
+    if style == "noisy":
+        # rankings change from level to level (drives PASHA's cap growth)
+        return rr.randrange(0, 256) / 256.0
     if style.startswith("near"):
         # near-ties: differences far above round-off (2^-40 relative) but small
         delta = {"near4": 1e-4, "near6": 1e-6, "near8": 1e-8, "near10": 1e-10}[style]
@@ -211,6 +214,9 @@ def run_scenario(spec):
     sign = -1.0 if spec.get("negate") else 1.0
     searcher = sch.searcher
     n_events = 0
+    # training scripts reporting only every `stride`-th level (stopping types only: a pause/resume
+    # trial must report its milestone exactly, the code asserts it)
+    stride = spec.get("stride", 1) if not sch.does_pause_resume() else 1
     late = []  # trials that got a non-continue decision and may send one more report
 
     def do_result(tid, r):
@@ -283,7 +289,7 @@ def run_scenario(spec):
                     ms = int(cfg[MAXATTR])
                     upto = ms
                 first = int(sch.terminator._rung_systems[0].get_first_milestone(0)) if False else None
-                workers[tid] = Worker(tid, 1, upto)
+                workers[tid] = Worker(tid, stride, upto)
                 sch.on_trial_add(trials[tid])
                 bracket = int(sch._active_trials[str(tid)].bracket)
                 out = {"suggestion": {"kind": "start", "trial": tid, "bracket": bracket}, "calls": calls}
@@ -322,7 +328,7 @@ def run_scenario(spec):
             d = do_result(tid, r)
             if d is None:
                 break
-            w.next_r += 1
+            w.next_r += stride
             if d != SchedulerDecision.CONTINUE:
                 del workers[tid]
                 sch.on_trial_remove(trials[tid])
